@@ -19,13 +19,14 @@ func init() {
 			"C16.4 delivery is not lossy: every send on Announce.Peers sits in a blocking select whose only other case is a receive from the traversal's Stopped(); the delivered value carries the responder {addr, r.ID}, r.Values and *r of the one reply; " +
 			"C16.5 argument correspondence: Server.announcePeer fills MsgArgs.ImpliedPort/InfoHash/Port/Token from the like-named parameters and queries the node it was given; Announce.announcePeer passes its own info-hash and the configured Port / ImpliedPort.",
 		NotDecided: "which nodes end up in the closest set (C02), exactly-once delivery counts, behaviour of the remote nodes.",
-		Assume: []string{"k-nearest-nodes Range yields each stored element with its own key and data (C02.4 checks Push stores them together)"},
+		Assume:     []string{"k-nearest-nodes Range yields each stored element with its own key and data (C02.4 checks Push stores them together)"},
 		Rules: []*Rule{
 			{ID: "C16.1", Doc: "token and destination from the same element / reply", Floor: 4, Run: c16r1},
 			{ID: "C16.2", Doc: "token assertion licensed by the data filter", Floor: 2, Run: c16r2},
 			{ID: "C16.3", Doc: "stop, wait, announce, then close - on every path", Floor: 7, Run: c16r3},
 			{ID: "C16.4", Doc: "responses are delivered unless the traversal was stopped", Floor: 2, Run: c16r4},
 			{ID: "C16.5", Doc: "announce_peer arguments", Floor: 6, Run: c16r5},
+			{ID: "C16.6", Doc: "the lookup under the announce can stall and stop: every in-flight slot taken is given back (shared with C03.4)", Floor: 5, Run: c03r4},
 		},
 	})
 }
@@ -309,6 +310,7 @@ func c16r3(w *World, rr *RuleRun) {
 			}
 		}
 	}
+	w.checkWaitGroupStarts(rr, ac)
 	rr.Oblige(shortFuncName(ac), "announceClosest counts, joins and waits for its announce goroutines", w.P.Pos(ac.Pos()), adds >= 1 && dones >= 1 && waits == 1, fmt.Sprintf("Add %d, Done %d, Wait %d", adds, dones, waits))
 }
 
@@ -407,4 +409,66 @@ func c16r5(w *World, rr *RuleRun) {
 		rr.At(w, site, "the announce carries the configured port", isFieldTerm(w.TS.Of(c.Args[4]), portF), trunc(w.TS.Of(c.Args[4]).String(), 80))
 		rr.At(w, site, "the announce carries the configured implied_port flag", isFieldTerm(w.TS.Of(c.Args[6]), impF), trunc(w.TS.Of(c.Args[6]).String(), 80))
 	}
+}
+
+// checkWaitGroupStarts: every goroutine that reports Done on a WaitGroup is counted (Add) by the
+// starting goroutine before the go statement, on every path; an Add inside the started goroutine
+// races with Wait.
+func (w *World) checkWaitGroupStarts(rr *RuleRun, root *ssa.Function) int {
+	isWG := func(ins ssa.Instruction, name string) bool {
+		c := callInstrCommon(ins)
+		if c == nil {
+			return false
+		}
+		o := calleeObj(c)
+		return o != nil && recvNamed(o) == "WaitGroup" && o.Name() == name
+	}
+	callsDone := func(f *ssa.Function) bool {
+		found := false
+		eachInstr(append([]*ssa.Function{f}, allAnon(f)...), func(_ *ssa.Function, ins ssa.Instruction) {
+			if isWG(ins, "Done") {
+				found = true
+			}
+		})
+		return found
+	}
+	n := 0
+	for _, f := range append([]*ssa.Function{root}, allAnon(root)...) {
+		for _, b := range f.Blocks {
+			for _, ins := range b.Instrs {
+				g, ok := ins.(*ssa.Go)
+				if !ok {
+					continue
+				}
+				joins := false
+				for _, e := range w.CG.SiteOut[g] {
+					if callsDone(e.Callee) {
+						joins = true
+					}
+				}
+				if !joins {
+					continue
+				}
+				n++
+				pre := PrecededBy(g, func(i ssa.Instruction) bool { return isWG(i, "Add") })
+				rr.At(w, g, "a goroutine that reports Done is counted with Add before it is started", pre, "")
+			}
+		}
+		// an Add inside a go-started function is too late for Wait
+		for _, b := range f.Blocks {
+			for _, ins := range b.Instrs {
+				if !isWG(ins, "Add") {
+					continue
+				}
+				goStarted := false
+				for _, e := range w.CG.CallersOf(f) {
+					if e.Mode == ModeGo {
+						goStarted = true
+					}
+				}
+				rr.At(w, ins, "WaitGroup.Add runs in the goroutine that waits, not in a started one", !goStarted, shortFuncName(f))
+			}
+		}
+	}
+	return n
 }
